@@ -692,5 +692,39 @@ seed("c04-reset-keeps-total", "C04", "R-reset-effects", "conn.go",
 
 	if c.session != nil {""", """	if c.session != nil {""", "per-message BDAT state survives reset")
 
+seed("c05-nonlast-no-reply", "C05", "R-bdat-one-reply", "conn.go",
+"""	} else {
+		c.writeResponse(250, EnhancedCode{2, 0, 0}, "Continue")
+	}
+}""", """	}
+}""", "non-final chunk not answered")
+seed("c08-reader-end-left-open", "C08", "R-result-on-every-exit", "conn.go",
+"""			dataResult <- err
+			r.CloseWithError(err)
+		}()""", """			dataResult <- err
+		}()""", "delivery goroutine leaves the reading end open")
+seed("c08-bdat-panic-no-close", "C08", "R-giveup-closes", "conn.go",
+"""		if err == errPanic {
+			c.Close()
+			return
+		}
+
+		c.reset()
+	} else {""", """		c.reset()
+	} else {""", "backend panic at BDAT LAST answered 421 without closing")
+seed("c20-wait-before-close", "C20", "R-result-on-every-exit", "conn.go",
+"""		c.bdatPipe.Close()
+
+		err := <-c.dataResult
+""", """		err := <-c.dataResult
+""", "handler waits for the result with the pipe still open")
+seed("c20-result-channel-unbuffered", "C20", "R-go-bounded", "conn.go",
+"		dataResult := make(chan error, 1)", "		dataResult := make(chan error)", "delivery goroutine blocks forever after RSET")
+
+seed("c01-lf-reset-needs-cr", "C01", "R-linelimit-threshold", "lengthlimit_reader.go",
+"""	for _, chr := range b[:n] {
+		if chr == '\\n' {""", """	for i, chr := range b[:n] {
+		if chr == '\\n' && i > 0 && b[i-1] == '\\r' {""", "line count reset only for a CRLF inside one read")
+
 json.dump(S, open(os.path.join(os.path.dirname(os.path.abspath(__file__)), "bank.json"), "w"), indent=1)
 print(len(S), "seeds")
